@@ -89,9 +89,15 @@ func c10Bytes(c *hx.Ctx, b []byte, class string) {
 		c.Failf("extract-panic", d2, "ExtractPublicKey panicked")
 		return
 	}
+	if cap(b) > len(b) && !spareIntact(b) {
+		c.Failf("writes-past-len", d2, "IDFromBytes/ExtractPublicKey wrote past the end of the input slice")
+	}
 	if xerr == nil {
 		if len(raw) != 32 {
 			c.Failf("extract-bad-key", d2, "extracted key has %d bytes", len(raw))
+		}
+		if !bytes.Contains(b, raw) {
+			c.Failf("key-not-in-input", d2, "extracted key %x does not occur in the id bytes (read past the input?)", raw)
 		}
 		if err != nil {
 			c.Failf("extract-from-rejected-id", d2, "ExtractPublicKey succeeded on bytes IDFromBytes rejects")
@@ -381,6 +387,7 @@ func c10(c *hx.Ctx) {
 		}
 	}
 	c10Sweep(c, pks[0])
+	c10Prefixes(c, ids[0], pks[0])
 	// text
 	nText := c.N - nValid - nMut
 	for i := 0; i < nText; i++ {
@@ -540,4 +547,65 @@ func padProto(base []byte, n int) ([]byte, bool) {
 		}
 	}
 	return nil, false
+}
+
+// c10Prefixes: every proper prefix of a valid id (exact-capacity and
+// spare-capacity slices), the id with trailing bytes, the same for the
+// embedded PublicKey (multihash header re-computed for the truncated key, so
+// that the truncation reaches UnmarshalPublicKey), and every prefix of the text form.
+func c10Prefixes(c *hx.Ctx, id []byte, key []byte) {
+	step := 1
+	for _, v := range truncations(c, id, step) {
+		c10Bytes(c, v.b, "id-"+v.kind)
+	}
+	body := id[2:]
+	for _, v := range truncations(c, body, step) {
+		b := cat(uv(0), uv(uint64(len(v.b))), v.b)
+		if v.kind == "prefix-spare" || v.kind == "complete-spare" {
+			b = spareCap(b)
+		} else {
+			b = exactCap(b)
+		}
+		c10Bytes(c, b, "embedded-key-"+v.kind)
+		c10PubProto(c, v.b, "pubkey-"+v.kind)
+	}
+	tstep := 1
+	if c.Tier != "thorough" {
+		tstep = 3
+	}
+	for _, t := range textCuts(b58.Encode(id), tstep) {
+		c10Text(c, t, "text-cut")
+	}
+}
+
+// c10PubProto: crypto.UnmarshalPublicKey on d with the 'key or error' oracle.
+func c10PubProto(c *hx.Ctx, d []byte, class string) {
+	c.Class(class)
+	desc := map[string]any{"kind": "unmarshal-pub", "class": class, "bytes": hx.Hex(d), "cap_minus_len": cap(d) - len(d)}
+	var pk crypto.PubKey
+	var err error
+	var p bool
+	var raw []byte
+	o := guarded(c, "UnmarshalPublicKey", desc, [][]byte{d}, func() string {
+		raw = nil
+		p, _ = hx.Catch(func() { pk, err = crypto.UnmarshalPublicKey(d) })
+		if !p && err == nil {
+			raw, _ = pk.Raw()
+		}
+		return obsBytes(p, raw, err, extractClass(err))
+	})
+	c.Case(hx.App("UnmarshalPub", hx.Bytes(d), o), desc)
+	switch {
+	case p:
+		c.Failf("unmarshalpublickey-panic", desc, "UnmarshalPublicKey panicked")
+	case err == nil && pk == nil:
+		c.Failf("unmarshal-no-key-no-error", desc, "UnmarshalPublicKey returned neither a key nor an error")
+	case err == nil:
+		if len(raw) != 32 || !bytes.Contains(d, raw) {
+			c.Failf("key-not-in-input", desc, "returned key %x does not occur in the input (read past the input?)", raw)
+		}
+	}
+	if cap(d) > len(d) && !spareIntact(d) {
+		c.Failf("writes-past-len", desc, "UnmarshalPublicKey wrote past the end of the input slice")
+	}
 }
